@@ -17,7 +17,9 @@ RULE = ('driven exhaustively: every list length n = 0..N (N = 10 quick, 13 thoro
         'icontract postcondition (balanced non-nested parentheses, no group of one, groups = maximal runs of 1-decisions, last '
         'decision without effect, order kept); the emitted text is embedded (a) as a first-side list and (b) as a second-side '
         'list in (c) a 2-agent and (d) a 3-agent file and loaded with the real Solver: adjacent entries share a rank exactly when '
-        'tied, ranks start at 1 and grow by one per group; non-trivial = vector with at least one 1 among the first n-1 '
+        'tied, ranks start at 1 and grow by one per group; second workload: real Generator runs (sparse shapes included) with taps '
+        'on the two list-producing functions - every line of every written file must carry exactly the groups that the recorded '
+        '(list, tie decisions) imply, empty lists included, and the solver must read the first-side lists back with the implied ranks; non-trivial = vector with at least one 1 among the first n-1 '
         'decisions; distinct = distinct (n, vector); evaluations = reader executions')
 ASSUMPTIONS = ['the entry ids of the list are a random permutation of 1..n (ids do not influence parenthesisation)']
 
@@ -129,6 +131,119 @@ def run_shard(ctx):
             if idx % 500 == 0:
                 ctx.sample({'n': n, 'ties': list(t), 'ids': ids, 'text': ' '.join(toks), 'expected_ranks': want}, cap=2)
     lc.harvest_contracts(ctx, {})
+    generator_text_workload(ctx)
+    lc.harvest_contracts(ctx, {})
+
+
+def groups_from(pref, ties):
+    n = len(pref)
+    out, cur = [], [int(pref[0])] if n else []
+    for i in range(1, n):
+        if ties[i - 1]:
+            cur.append(int(pref[i]))
+        else:
+            out.append(cur)
+            cur = [int(pref[i])]
+    if n:
+        out.append(cur)
+    return out
+
+
+def generator_text_workload(ctx):
+    """The text the generator really writes: taps on the two list-producing
+    functions record every (list, tie decisions) pair of a run; each line of each
+    written file must carry exactly the groups those decisions imply (also for
+    empty lists), and the solver must read them back with the implied ranks."""
+    import os
+    import sys as _sys
+    from .. import genengine as ge
+    from .. import contracts
+    import matchingproblems.generator.generator_shared as gs
+    from matchingproblems.solver import Solver
+    rec = []
+
+    def wrap(name):
+        orig = getattr(gs, name)
+        if getattr(orig, '_rv_wrapped', False):
+            return
+
+        def w(*a, **k):
+            r = orig(*a, **k)
+            rec.append((name, [[int(x) for x in l] for l in r[0]], [[int(x) for x in t] for t in r[1]]))
+            return r
+        w._rv_wrapped = True
+        w._rv_rec = rec
+        setattr(gs, name, w)
+        contracts._rebind(orig, w)
+    for nm in ('create_pref_lists_original', 'create_pref_lists_from_other_lists'):
+        wrap(nm)
+        f = getattr(gs, nm)
+        if getattr(f, '_rv_rec', None) is not rec:
+            rec = f._rv_rec
+    rng = random.Random(ctx.seed * 31 + ctx.shard)
+    nruns = 40 if ctx.tier == 'quick' else 600
+    for q in range(nruns):
+        mp = rng.choice(['hr', 'sm', 'spa', 'ha'])
+        v = ge.legal_vector(rng, mp=mp, max_n1=8, max_n2=10, max_n3=6)
+        if rng.random() < 0.5 and mp in ('hr', 'spa'):
+            v['n1'] = rng.randint(1, 3)          # sparse: second-side agents nobody ranks
+            v['pmin'] = 1
+            v['pmax'] = min(v['pmax'], 2)
+        v['t1'] = rng.choice([0.3, 0.6, 1.0, 0.0])
+        if mp != 'ha':
+            v['t2'] = rng.choice([0.3, 0.6, 1.0, 0.0])
+        if mp == 'spa':
+            v['twopl'] = True
+        outdir = ge.fresh_outdir(ctx.workdir, 'c13g')
+        argv = ge.to_argv(v, outdir, rng)
+        del rec[:]
+        res = ge.run_generator(argv, rng.randint(0, 10 ** 6))
+        ctx.cnt('generator_runs_with_list_taps')
+        if res['exit'] is not None or res['exc'] is not None:
+            ctx.cnt('generator_text_unobservable_run_failed')
+            continue
+        calls = list(rec)
+        per_inst = 2 if v.get('twopl') else 1
+        na = ge.NA[mp]
+        for i in range(v['numinst']):
+            path = os.path.join(outdir, '%d.txt' % i)
+            if not os.path.exists(path) or len(calls) < (i + 1) * per_inst:
+                ctx.cnt('generator_text_unobservable_file_or_tap_missing')
+                continue
+            text = open(path).read()
+            case = {'generator_text': True, 'argv': [a if a != outdir else '<outdir>' for a in argv], 'file': text}
+            try:
+                fspec, _ = op.parse_instance_file(text, na)
+            except op.ParseError as e:
+                ctx.finding(en.F('C13', 'generated_text_parses', 'generated file does not parse: %s' % e), case)
+                continue
+            first = calls[i * per_inst]
+            sides = [('first', first, fspec['st'])]
+            if per_inst == 2:
+                sides.append(('second', calls[i * per_inst + 1], fspec['lec']))
+            for side, (_nm, lists, ties), got in sides:
+                for idx, (pl, tt) in enumerate(zip(lists, ties)):
+                    ctx.cnt('generated_lines_judged')
+                    want = groups_from(pl, tt)
+                    if not pl:
+                        ctx.cov('generated_empty_list')
+                    if idx >= len(got) or got[idx] != want:
+                        ctx.finding(en.F('C13', 'generated_text_matches_decisions', '%s-side line %d of %s/%d.txt reads %s; the list %s with tie '
+                                         'decisions %s implies %s' % (side, idx + 1, mp, i, got[idx] if idx < len(got) else None, pl, tt, want)), case)
+                        break
+            # read back through the real solver
+            try:
+                s = Solver(['-f', path, '-na', str(na)] + (['-twopl'] if v.get('twopl') else []))
+                ctx.cnt('generated_files_read_back')
+                for srow, (pl, tt) in zip(s.model.pairs, zip(first[1], first[2])):
+                    want = exp_ranks(tt, len(pl))
+                    if [p.projectID for p in srow] != pl or [p.rank_student for p in srow] != want:
+                        ctx.finding(en.F('C13', 'generated_ranks_read_back', 'student list %s with decisions %s read back as %s with ranks %s' % (
+                            pl, tt, [p.projectID for p in srow], [p.rank_student for p in srow])), case)
+                        break
+            except BaseException as e:
+                ctx.finding(en.F('C13', 'generated_file_loads', 'solver cannot load the generated file: %s: %s' % (type(e).__name__, e)), case)
+        ctx.nontrivial('gen/%d/%d' % (ctx.shard, q))
 
 
 def replay(w, ctx):
@@ -149,4 +264,8 @@ def floors(m, tier):
         out.append('only %d reader executions' % c.get('reader_executions', 0))
     if c.get('contract_evals_contract_errors', 0):
         out.append('%d internal contract errors' % c['contract_evals_contract_errors'])
+    if c.get('generated_lines_judged', 0) < (3000 if tier == 'quick' else 50000):
+        out.append('only %d generated lines judged' % c.get('generated_lines_judged', 0))
+    if m['cover'].get('generated_empty_list', 0) < 20:
+        out.append('only %d generated empty lists' % m['cover'].get('generated_empty_list', 0))
     return out
